@@ -13,7 +13,7 @@ TIE_STABLE_FUNCS = CP.TIE_STABLE_FUNCS
 SORT_SKIP_FUNCS = CP.SORT_SKIP_FUNCS
 STUBS = CP.STUBS + ["networkx.dag_longest_path (the path computation is C09's subject; here any source->sink path)"]
 ASSUMPTIONS = CP.ASSUMPTIONS
-BUDGET_S = {"quick": 540, "thorough": 3300}
+BUDGET_S = {"quick": 540, "thorough": 1200}
 BOUNDS = {
     "quick": "22 structures (incl. two host threads launching on one stream, and a second thread launching on a stream on which the first waits for an event; 1..2 operators with 0..3 launch/kernel pairs on 1..2 streams, cudaStreamSynchronize + Stream "
              "Sync, cudaDeviceSynchronize + Context Sync, a sync between two launches, cudaEventRecord + "
